@@ -49,10 +49,7 @@ def stepReader (line : String) : String :=
     -- first and returns at once; those bytes are never decoded
     let T := Tea.Gen.extSequences
     let lens := Tea.Gen.seqLengths
-    let showOut (out : List Out) : String := " | ".intercalate (out.map fun o =>
-        match o.msg with
-        | some (.unknownCSI bs) => s!"unknowncsi len={bs.length}"   -- content aliases the read buffer in Go
-        | m => descOpt m)
+    let showOut (out : List Out) : String := " | ".intercalate (out.map fun o => descOpt o.msg)
     match budget with
     | some k =>
       -- the context is cancelled after k messages were taken (Tea.Input.readAllC)
